@@ -171,15 +171,19 @@ Proof.
 Qed.
 Print Assumptions C12_roundtrip_flat_daily_mean.
 
-(* non-vacuity: 2000Q1 (91 days, leap February) .. 2000Q3 to daily and back; 29 Feb 2000 belongs to 2000Q1 and to 2000M02 *)
+(* non-vacuity: 2000M02 (29 days, leap February) .. 2000M04 to daily and back; the hypotheses of the round trip hold *)
 Example C12_daily_roundtrip_hypotheses_satisfiable :
-  let s := mkSeries (A:=OZArith) 4 (Some 8000) 1 [[Some 3]; [None]; [Some 5]] in
+  let s := mkSeries (A:=OZArith) 12 (Some 24001) 1 [[Some 3]; [None]; [Some 5]] in
   let X := mkExt OZArith (fun x => x) (fun x => x) (fun _ _ => false) (fun _ _ => false) in
-  exists d r, disaggregate_daily OZArith DisFlat s = Ok d /\ s_start d = Some (ord_of_ymd 2000 1 1) /\
-              length (s_data d) = 274%nat /\
-              aggregate_daily OZArith X AggLast None false 4 d = Ok r /\
-              s_start r = Some 8000 /\ s_data r = [[Some 3]; [None]; [Some 5]].
-Proof. eexists. eexists. repeat split; vm_compute; reflexivity. Qed.
+  match disaggregate_daily OZArith DisFlat s with
+  | Ok d => s_start d = Some (ord_of_ymd 2000 2 1) /\ length (s_data d) = 90%nat /\
+            match aggregate_daily OZArith X AggLast None false 12 d with
+            | Ok r => s_start r = Some 24001 /\ s_data r = [[Some 3]; [None]; [Some 5]]
+            | Err _ => False
+            end
+  | Err _ => False
+  end.
+Proof. vm_compute. repeat split; reflexivity. Qed.
 
 Example C12_daily_membership_leap_day :
   low_of_day 4 (ord_of_ymd 2000 2 29) = 8000 /\ low_of_day 12 (ord_of_ymd 2000 2 29) = 24001 /\
